@@ -19,7 +19,8 @@ Reqs == IF DoReq THEN ndJsonDeserialize("c03_eval.ndjson") ELSE <<>>
 CONSTANT DoOpt    \* BOOLEAN: include the define / pure / drop / drop-labels family
 CONSTANT D1All    \* BOOLEAN: every depth-1 expression in all three contexts (FALSE: in one context chosen by Seed)
 CONSTANTS DoCx,   \* BOOLEAN: include the context x operand-kind family
-          CxFull, \* BOOLEAN: every operator, every literal (FALSE: the covering sample chosen by Seed)
+          CxFull, \* BOOLEAN: operand kinds over every operator (FALSE: one seeded operator per class)
+          CxMod,  \* 0: the covering sample of the cx / xc families only; n >= 1: plus the seeded 1/n of the full product
           DoXc,   \* BOOLEAN: include the outer-constant family (cross-module const / enum / define)
           D1Mod,  \* take the depth-1 expressions whose hash is 0 modulo D1Mod (1: all), rotated by Seed
           SkelMod \* the same for the statement skeletons
@@ -71,8 +72,8 @@ Init == /\ \/ DoD1 /\ kind = "d1" /\ idx \in {1, 2, 3} /\ \E e \in D1Set : prog 
               /\ (D1Mod = 1 \/ ((HashN(prog[1]) \div 3) + Seed) % D1Mod = 0)
            \/ DoSkel /\ kind = "skel" /\ prog \in SkelProgs /\ idx = 0
               /\ (SkelMod = 1 \/ (HashL(prog, 1) + Seed) % SkelMod = 0)
-           \/ DoCx /\ kind = "cx" /\ idx \in CxDescs(CxFull, Seed) /\ prog = <<>>
-           \/ DoXc /\ kind = "xc" /\ idx \in XcDescs(CxFull, Seed) /\ prog = <<>>
+           \/ DoCx /\ kind = "cx" /\ idx \in CxDescs(CxFull, Seed, CxMod) /\ prog = <<>>
+           \/ DoXc /\ kind = "xc" /\ idx \in XcDescs(Seed, CxMod) /\ prog = <<>>
            \/ kind = "rnd" /\ idx \in 1..NRand /\ prog = <<>>
            \/ kind = "req" /\ idx \in 1..Len(Reqs) /\ prog = <<>>
            \/ DoOpt /\ kind = "opt" /\ idx \in 1..Len(DefVals) /\ prog \in OptProgs(0)
@@ -121,8 +122,8 @@ Total == done => \A r \in 1..Len(out) :
 ASSUME \A c1, c2 \in 0..10 : c1 # c2 =>
           Cardinality({<<Cell(i, j, c1), Cell(i, j, c2)>> : i \in 0..(Q - 1), j \in 0..(Q - 1)}) = Q * Q
 (* the cx family inhabits EVERY (context, operand kind) pair, in the covering sample as well *)
-ASSUME DoCx => CxPairs(CxDescs(CxFull, Seed)) = (1..NCtx) \X (1..Len(CxShapes(CxFull, Seed, 1)))
-ASSUME DoXc => CxPairs(XcDescs(CxFull, Seed)) = (1..NCtx) \X (1..Len(XcShapes(Seed, 1)))
+ASSUME DoCx => CxPairs(CxDescs(CxFull, Seed, CxMod)) = (1..NCtx) \X (1..Len(CxShapes(CxFull, Seed, 1)))
+ASSUME DoXc => CxPairs(XcDescs(Seed, CxMod)) = (1..NCtx) \X (1..Len(XcShapes(Seed, 1)))
 (* every pattern class named by the property is inhabited by the exhaustive families *)
 Inhabited(progs) == \A c \in RequiredClasses : \E pr \in progs : c \in Labels(pr)
 =============================================================================
